@@ -10,8 +10,11 @@ import (
 )
 
 // Small byte alphabet that forces shared nibble prefixes, keys that are
-// prefixes of other keys and keys/prefixes that end in a zero nibble.
-var keyAlphabet = []byte{0x00, 0x01, 0x0f, 0x10, 0x11, 0x1f, 0xf0, 0xff}
+// prefixes of other keys and keys/prefixes that end in a zero nibble. The
+// nibbles used are 0, 1, 2, e, f: sibling indices include pairs that are not
+// bit-subsets of each other (1|2 != 2, 1|e != e), which code that packs or
+// masks nibbles can tell apart from the chain 0 < 1 < f.
+var keyAlphabet = []byte{0x00, 0x01, 0x0f, 0x10, 0x11, 0x1f, 0xf0, 0xff, 0x12, 0x21, 0x2e}
 
 // ValueLens are the value lengths around the inline/hash threshold.
 var ValueLens = []int{0, 1, 2, 30, 31, 32, 33, 34, 64, 100}
